@@ -779,6 +779,14 @@ class Container:
             raise TypeError("Invalid source type.")
         quantity_to_transfer, unit = Unit.parse_quantity(quantity)
 
+        def ratio_of(requested, total):
+            # an empty source can only give nothing
+            if total == 0:
+                if round(requested, config.internal_precision) != 0:
+                    raise ValueError(f"Not enough mixture left in source container ({source_container.name}).")
+                return 0.0
+            return requested / total
+
         if unit == 'L':
             volume_to_transfer = Unit.convert_to_storage(quantity_to_transfer, 'L')
             volume_to_transfer = round(volume_to_transfer, config.internal_precision)
@@ -787,7 +795,7 @@ class Container:
                 raise ValueError(f"Not enough mixture left in source container ({source_container.name}). " +
                                  f"Only {Unit.convert_from_storage(source_container.volume, 'mL')} mL available, " +
                                  f"{Unit.convert_from_storage(volume_to_transfer, 'mL')} mL needed.")
-            ratio = volume_to_transfer / source_container.volume
+            ratio = ratio_of(volume_to_transfer, source_container.volume)
 
         elif unit == 'g':
             mass_to_transfer = round(quantity_to_transfer, config.internal_precision)
@@ -795,12 +803,12 @@ class Container:
             for substance, amount in source_container.contents.items():
                 source_unit = 'U' if substance.is_enzyme() else config.moles_storage_unit
                 total_mass += Unit.convert_from(substance, amount, source_unit, "g")
-            ratio = mass_to_transfer / total_mass
+            ratio = ratio_of(mass_to_transfer, total_mass)
         elif unit == 'mol':
             moles_to_transfer = Unit.convert_to_storage(quantity_to_transfer, 'mol')
             total_moles = sum(amount for substance, amount in source_container.contents.items()
                               if not substance.is_enzyme())
-            ratio = moles_to_transfer / total_moles
+            ratio = ratio_of(moles_to_transfer, total_moles)
         elif unit == 'U':
             total_activity = sum(amount for substance, amount in source_container.contents.items()
                                  if substance.is_enzyme())
